@@ -100,12 +100,15 @@ def judge(ctx, r):
 def run(ctx):
     import sessions.c03 as c03
     import itertools
-    runs = itertools.chain(C.explore(ctx, ctx.n(500, 6000), 12, c03.STYLES_WF, p_invalid=0.15), C.explore_equal_sizes(ctx, depth=4 if ctx.thorough else 3), C.explore_boundary_sizes(ctx), C.explore_equal_sizes_big(ctx), C.explore_one_object(ctx, depth=5 if ctx.thorough else 4), C.explore_two_objects(ctx, ctx.n(150, 3000)))
+    runs = itertools.chain(C.explore(ctx, ctx.n(500, 6000), 12, c03.STYLES_WF, p_invalid=0.15), C.explore_equal_sizes(ctx, depth=4 if ctx.thorough else 3), C.explore_boundary_sizes(ctx), C.explore_equal_sizes_big(ctx), C.explore_one_object(ctx, depth=5 if ctx.thorough else 4), C.explore_two_objects(ctx, ctx.n(150, 3000)),
+                            C.explore_relative_paths(ctx, ctx.n(40, 600)))
     for r in runs:
         ctx.case((r.desc, str(C.jsonable_hist(r.hist))), nontrivial=C.nontrivial_history(r),
                  sample=dict(start=r.desc, ops=[s["op"][0] + ":" + s["real"] for s in r.steps]), tags=C.history_tags(r))
         C.correspondence(ctx, r)
         C.judge_and_shrink(ctx, r, judge)
+        if getattr(r, "decoy_changed", False):
+            ctx.fail(f"{r.desc}: a file of the same name in the directory the process had moved to was changed", C.replay_of(r, len(r.steps) - 1), ident="another file of the same name changed")
 
 
 def replay(path):
